@@ -82,8 +82,11 @@ def gen_rewards(r, kinds=None, seed=0):
     if r.random() < 0.1 and "scale" not in spec:
         # rewards riding on a large constant: cancellation in one-pass variance / near-tie comparisons
         spec["offset"] = r.choice([1e3, 1e6, 1e6, 4e6, 1e8, -1e6])
-    if r.random() < 0.04 and (kinds is None or "bernoulli" in kinds or True):
-        spec = {"kind": "bernoulli", "seed": seed, "p": r.choice([0.2, 0.5, 0.8]), "types": r.choice(["b", "b", "f", "bf"])}
+    if r.random() < 0.04:
+        spec = {"kind": "bernoulli", "seed": seed, "p": r.choice([0.2, 0.5, 0.8]), "types": r.choice(["b", "b", "f", "bf", "8"])}
+    elif r.random() < 0.04:
+        # integer scores as narrow NumPy scalars (uint8 / int8): sums of them wrap around unless widened
+        spec = {"kind": r.choice(["score", "score", "int"]), "seed": seed, "types": r.choice(["8", "8", "8f"])}
     if kind == "late":
         spec["late"] = r.randint(1, 120)
     if kind in ("obj", "objneg"):
@@ -264,6 +267,8 @@ def base_scenario(r, seed, algo, *, parts=None, dmax=3, n=None, T=None, real_pro
         part = gen_partition(r, PARTS_BINARY_CHILD + [{"cls": "KaryPartition", "K": 3}, {"cls": "RandomKaryPartition", "K": 3}])
     params, n, meta = gen_algo_params(r, algo, part, d, n, ok_only=ok_only, cap_mode=cap_mode)
     sc = {"algo": algo, "params": params, "partition": part, "domain": dom}
+    if len(dom) > 1 and all(x == dom[0] for x in dom) and r.random() < 0.5:
+        sc["aliased_rows"] = True     # the user wrote the hypercube as [[lo, hi]] * d
     if algo in ("POO", "GPO"):
         sc["base"] = base or r.choice(["T_HOO", "HCT", "VHCT"])
     sc["budget"] = n
